@@ -66,6 +66,9 @@ def run(ctx, rep):
             c = cmp_norm(e)
             if c:
                 op, x, y = c
+                if E.is_call(E.strip_casts(y), "Add::add") and E.mentions_field(y, "lifespan") and not E.mentions_field(x, "lifespan"):
+                    # `now < t + lifespan` is `t + lifespan > now`
+                    op, x, y = {"Lt": "Gt", "Gt": "Lt", "Le": "Ge", "Ge": "Le"}.get(op, op), y, x
                 lhs_ok = E.is_call(E.strip_casts(x), "Add::add") and E.mentions_field(x, "lifespan")
                 if lhs_ok and op == "Gt" and E.mentions_field(y, "now"):
                     okp = True
